@@ -11,10 +11,11 @@ if [ -z "$SKIP_SUITE" ]; then
   echo "suite: $(grep -E '^# (FAIL|ERROR):' $W/check.log | tr -s ' ' | sort | uniq -c | tr '\n' ' ')"
 fi
 cd /verif
-for c in $P "$@"; do rm -f replays/$c-1-*.json
+for c in $P "$@"; do rm -f replays/$c-1-*.json; cp -f evidence/$c.json /tmp/wt/evidence-$c.bak 2>/dev/null
   MUNGE_REPO=$W ./check $c 2>&1 | grep -E "VIOLATION|KNOWN|done:" | cut -c1-200
   for r in replays/$c-1-*.json; do [ -f "$r" ] && python3 -c "
 import json,sys
 r=json.load(open('$r')); print('   ', r.get('what','')[:300], '| found_input=', r.get('found_failing_input'))"; done
+  cp -f /tmp/wt/evidence-$c.bak evidence/$c.json 2>/dev/null    # evidence files describe runs on /repo only
 done
 git -C /repo worktree remove --force $W
